@@ -225,11 +225,17 @@ def render_file(pkg, structs, extra_imports=()):
     imports = set(extra_imports)
     if any(uses_type(s, "time.") for s in decls):
         imports.add('"time"')
+    if any("cmp." in c for s in decls for _, c in (s.get("tparams") or [])):
+        imports.add('"cmp"')
+    if any("fmt." in c for s in decls for _, c in (s.get("tparams") or [])):
+        imports.add('"fmt"')
     body = ["package " + pkg, ""]
     if imports:
         body.append("import (\n\t" + "\n\t".join(sorted(imports)) + "\n)\n")
     if any(uses_type(s, "Inner") for s in decls):
         body.append("type Inner struct{ N int }\n")
+    if any("Stringer" in c for s in decls for _, c in (s.get("tparams") or [])):
+        body.append("type Str string\n\nfunc (s Str) String() string { return string(s) }\n")
     for d in decls:
         body.append(render_struct(d))
         body.append("")
@@ -239,8 +245,10 @@ def render_file(pkg, structs, extra_imports=()):
 def instantiate(s):
     if not s.get("tparams"):
         return s["name"]
-    n = sum(len(g) for g, _ in s["tparams"])
-    return "%s[%s]" % (s["name"], ", ".join(["int"] * n))
+    args = []
+    for g, c in s["tparams"]:
+        args += ["Str" if "Stringer" in c else "int"] * len(g)
+    return "%s[%s]" % (s["name"], ", ".join(args))
 
 
 # ------------------------------------------------------------------------------------------------
@@ -280,8 +288,15 @@ def members_sexp(s, top=True):
     return out
 
 
+IDENT_CONSTRAINTS = {"any", "comparable"}
+
+
+def tparams_sexp(s):
+    return ["tparams"] + [["g", ["names"] + [Q(n) for n in g], Q(c), "ident" if c in IDENT_CONSTRAINTS else "expr"] for g, c in s.get("tparams") or []]
+
+
 def ctor_sexp(cid, s, hasnewin=False):
-    return dump(["case", cid, "ctor", ["hasnewin", hasnewin], ["tree"] + members_sexp(s)])
+    return dump(["case", cid, "ctor", ["hasnewin", hasnewin], tparams_sexp(s), ["tree"] + members_sexp(s)])
 
 
 def count_features(s, feats=None, depth=0):
